@@ -26,7 +26,8 @@ SEPS = ["/", ".", "|", "::"]
 CLS = dict((s, _mk(s)) for s in SEPS)
 
 BS = chr(92)
-POOL = ["a", "A", "a.b", "a*b", "x?", u"é", "ab", "[", "b", "(+", 7, "a/b", "B", "a" + BS + "b", "^a$", u"É", "a|b", "..a", "a b", "a\nb", "a", "A*"]
+POOL = [u"é", "a", "A", "a.b", "a*b", "x?", "ab", "AB", "[", "b", "(+", 7, "a/b", "B", "a" + BS + "b", "^a$", u"É", "a|b", "..a", "a b", "a
+b", "A*"]
 
 
 def classify(exc):
